@@ -115,6 +115,83 @@ def symbolic_all_any(I, gnode, frame, seq, is_all, node):
     return mk_bool(z3.Exists([jb], z3.And(0 <= jb, jb < length, body)))
 
 
+def symbolic_listcomp(I, gnode, frame, seq, node):
+    """[<elt> for x in <symbolic list>] whose element expression is not a pure term (it calls functions under contract that
+    may raise): the contract supplies under comps[('list', n)] a closed spec term `elem` (bound index j) for element j.
+    (1) on a separate sub-path the real element expression is executed at an arbitrary index and must equal the summary;
+    (2) on the main path the new list is defined pointwise by the summary.  Returns None when there is no summary."""
+    from .loops import sequence_view
+    from .contract import eval_spec
+    from .sv import Frame, PathEnd, SymRaise
+    key = frame.func or I.fname
+    con = I.contract
+    counter = getattr(I, 'lcomp_counter', None)
+    if counter is None:
+        counter = I.lcomp_counter = {}
+    n = counter.get(key, 0)
+    spec = con.comps.get(('list', n)) if con is not None else None
+    if spec is None:
+        return None
+    counter[key] = n + 1
+    gen = gnode.generators[0]
+    if gen.ifs:
+        raise OutOfSubset("filtered list comprehension over a symbolic sequence")
+    length, elem_at = sequence_view(I, seq, node)
+    idx_name = spec.get('index', 'j')
+    ety = spec.get('type', 'int')
+
+    def summary(jterm):
+        f2 = Frame(parent=frame)
+        f2.vars[idx_name] = mk_int(jterm)
+        saved_q = getattr(I, 'in_quant', False)
+        I.in_quant = True
+        try:
+            from .contract import eval_spec_value
+            saved_spec = I.spec
+            I.spec = True
+            try:
+                return eval_spec_value(I, spec['elem'], f2)
+            finally:
+                I.spec = saved_spec
+        finally:
+            I.in_quant = saved_q
+    ch = I.path.branch(2)
+    if ch == 0:
+        j = z3.Int(I.path.fresh_name('j!e'))
+        I.path.assume(z3.And(0 <= j, j < length))
+        f2 = Frame(parent=frame)
+        I.assign(gen.target, elem_at(j), f2)
+        try:
+            v = I.eval(gnode.elt, f2)
+        except SymRaise as e:
+            allowed = spec.get('may_raise', [])
+            if not any(I.world.is_subclass_exc(e.exc_cls, a) for a in allowed):
+                I.path.oblige(f"{key}:listcomp{n}:noexc:{e.exc_cls}", z3.BoolVal(False), note=f"element raised at {e.origin}")
+            raise PathEnd(f'comprehension element raised {e.exc_cls}')
+        sv = summary(j)
+        if v.kind != sv.kind and not (v.kind in ('int', 'bool') and sv.kind in ('int', 'bool')):
+            I.path.oblige(f"{key}:listcomp{n}:elem_kind", z3.BoolVal(False), note=f"element of kind {v.kind}")
+            raise PathEnd('ill-kinded comprehension element')
+        I.path.oblige(f"{key}:listcomp{n}:elem", v.t == sv.t)
+        raise PathEnd('comprehension element checked')
+    for exc in spec.get('may_raise', []):
+        m = z3.Bool(I.path.fresh_name(f"lcomp_raises_{exc}"))
+        if I.path.decide(m):
+            raise SymRaise(exc, {}, f"comprehension line {getattr(node, 'lineno', '?')}")
+    lt = TY.list_theory(TY.smt_sort(ety))
+    L = z3.Const(I.path.fresh_name('lcomp'), lt.sort)
+    jb = z3.Int(I.path.fresh_name('j!b'))
+    I.path.assume(lt.llen(L) == length)
+    pats = [lt.lat(L, jb)]
+    if seq.kind == 'slist':
+        # element j of the new list is also defined whenever element j of the source list is mentioned
+        slt = TY.list_theory(TY.smt_sort(seq.extra['elem']))
+        pats.append(slt.lat(seq.t, jb))
+    I.path.assume(z3.ForAll([jb], z3.Implies(z3.And(0 <= jb, jb < length), lt.lat(L, jb) == summary(jb).t),
+                            patterns=pats))
+    return SV('slist', L, extra={'elem': ety})
+
+
 def symbolic_sum(I, gnode, frame, seq, node):
     """sum(<genexp over a symbolic list>) = lsum of the pointwise-defined list of terms (the element expression must be
     pure); sums of ints are promoted to reals when the terms are reals"""
